@@ -705,14 +705,16 @@ hwloc__nolibxml_export_add_content(hwloc__xml_export_state_t state, const char *
   ndata->has_content = 1;
 
   for(i=0; i<length; i++)
-    if (buffer[i] == '<' || buffer[i] == '>' || buffer[i] == '&')
+    if (buffer[i] == '<' || buffer[i] == '>' || buffer[i] == '&' || buffer[i] == '\r')
       break;
   if (i == length) {
     /* the buffer is not necessarily 0-terminated */
     res = hwloc_snprintf(ndata->buffer, ndata->remaining, "%.*s", (int) length, buffer);
     hwloc__nolibxml_export_update_buffer(ndata, res);
   } else {
-    /* '<', '>' and '&' cannot appear as is in the content of an element */
+    /* '<', '>' and '&' cannot appear as is in the content of an element,
+     * and XML parsers normalize a raw carriage return into a line feed.
+     */
     char *escaped = malloc(length*5+1); /* escaped chars are replaced by at most 5 char */
     char *dst = escaped;
     if (!escaped)
@@ -722,6 +724,7 @@ hwloc__nolibxml_export_add_content(hwloc__xml_export_state_t state, const char *
       case '<': strcpy(dst, "&lt;");  dst += 4; break;
       case '>': strcpy(dst, "&gt;");  dst += 4; break;
       case '&': strcpy(dst, "&amp;"); dst += 5; break;
+      case '\r': strcpy(dst, "&#13;"); dst += 5; break;
       default: *(dst++) = buffer[i]; break;
       }
     }
